@@ -46,7 +46,7 @@ def decls(tier):
         # every menu entry as the first field x a representative second field (the full 29 x 29 square with every
         # option set does not finish within the thorough budget)
         second = list(range(M.QUICK_MENU)) + [M.MENU.index(M.MENU_BY_TAG[t]) for t in
-                                               ("alias-both", "no-input-default", "no-output", "readonly", "defer", "exclude")]
+                                               ("alias-both", "no-output", "readonly", "exclude")]
         pairs = [(i, j) for i in range(len(menu)) for j in second]
     else:
         q = list(range(M.QUICK_MENU)) + [M.MENU.index(M.MENU_BY_TAG[t]) for t in
